@@ -99,7 +99,7 @@ def run(ctx):
                 S.fail(c, ("nan",), "formats", d)
         return outs
 
-    n_rand = 5000 if thorough else 330
+    n_rand = 12000 if thorough else 900
     for i in range(n_rand):
         c = ca.gen_case(rng)
         outs = one(c, "random")
